@@ -9,7 +9,7 @@
    size; coordinates [C] and traversal numbers [N] are arbitrary types.  This file contains only
    statements: each theorem is closed by [exact] of a lemma of Proofs/Output.v, the main ones are
    pinned by a [Check], followed by non-vacuity examples and Print Assumptions. *)
-From Coq Require Import List String Bool Arith Permutation.
+From Coq Require Import List String Ascii Bool Arith Permutation.
 From RC Require Import Base.Res Model.Output Proofs.Output.
 Import ListNotations.
 Import OUT.
@@ -145,6 +145,13 @@ Section C20.
         /\ r_origin_uuid out' = Some ou /\ r_destination_uuid out' = Some du.
   Proof. exact (uuid_response state_ok). Qed.
 
+  (* the identifier table is read line by line, nothing dropped, nothing trimmed: row i of the file is
+     vertex i's identifier, blank / whitespace-only / duplicate rows included, LF or CRLF line ends *)
+  Theorem c20_uuid_rows_never_shift : forall rows, Forall no_nl rows ->
+      (Forall keeps_cr rows -> uuid_from_file (render_lf rows) = Ok rows)
+      /\ uuid_from_file (render_lf (map with_cr rows)) = Ok rows.
+  Proof. exact uuid_rows_never_shift. Qed.
+
   (* (7) The summary counters are the number of route edges and of tree branches. *)
   Theorem c20_summary_counts : forall (out : response C N) (routes : list route) (trees : list tree),
       summary_process out (SOk routes trees)
@@ -187,6 +194,10 @@ Check @c20_uuid_is_nth : forall C N uuids (out out' : response C N) routes trees
 Check @c20_summary_counts : forall C N (out : response C N) (routes : list (route N)) (trees : list (tree N)),
     summary_process out (SOk routes trees)
     = Ok (set_counts out (List.length (List.concat routes)) (List.length (List.concat trees))).
+
+Check c20_uuid_rows_never_shift : forall rows, Forall no_nl rows ->
+    (Forall keeps_cr rows -> uuid_from_file (render_lf rows) = Ok rows)
+    /\ uuid_from_file (render_lf (map with_cr rows)) = Ok rows.
 
 (* ---- non-vacuity: concrete inputs meeting the hypotheses, with non-trivial conclusions ---- *)
 (* a 4-edge route visiting edges 2,0,1,0 over three distinct multi-point linestrings: every format
@@ -234,7 +245,24 @@ Example c20_nonvacuous_response :
               /\ r_route_edges out = Some 4 /\ r_tree_size_count out = Some 3.
 Proof. eexists. repeat split. Qed.
 
+(* an identifier file with a blank row in the middle, a whitespace-only row, a duplicate and a row
+   with surrounding spaces: five rows in, the same five rows out, vertex 3 keeps "id-D" *)
+Example c20_nonvacuous_uuid_file :
+  let rows := ["id-A"; ""; "   "; "id-D"; " id-A "]%string in
+  Forall no_nl rows /\ Forall keeps_cr rows
+  /\ uuid_from_file (render_lf rows) = Ok rows
+  /\ nth_error rows 3 = Some "id-D"%string
+  /\ read_lines (render_lf (map with_cr rows)) = rows
+  /\ read_lines "a
+b"%string = ["a"; "b"]%string.
+Proof.
+  cbv zeta. split; [repeat constructor; discriminate|]. split; [repeat constructor|].
+  repeat split; reflexivity.
+Qed.
+
 Print Assumptions c20_formats_same_edge_sequence.
+Print Assumptions c20_uuid_rows_never_shift.
+Print Assumptions c20_nonvacuous_uuid_file.
 Print Assumptions c20_formats_agree.
 Print Assumptions c20_geometry_is_concat.
 Print Assumptions c20_route_output_defined_iff.
